@@ -60,7 +60,7 @@ func (b *boundaryLog) event(op, g int) {
 }
 
 func runC15(cfg *config, res *monitor.Result) {
-	iters := 400
+	iters := 800
 	if cfg.thorough() {
 		iters = 6000
 	}
